@@ -85,7 +85,7 @@ impl Property for C10 {
         vec!["closed", "open", "ok", "err", "le_Intersect", "le_TraceToMaxCurvature", "le_FitRadius", "le_ConstRadius", "le_ConvergeTangent", "le_RansacRadius", "orient_tmax", "orient_direction", "face_detect", "face_given", "chord<1", "chord>1", "equivariance"]
     }
     fn strategy(_t: Tier) -> BoxedStrategy<Case> {
-        let section = (logu(-0.3, 2.0), unif(0.0, 0.12), unif(0.005, 0.03), unif(0.005, 0.03), unif(0.03, 0.12), unif(0.2, 0.95), 75usize..600, prop_oneof![Just(1.0), unif(1.0, 2.0)], iso2(100.0), any::<bool>(), any::<u16>(), prop_oneof![4 => Just(None), 1 => (unif(0.02, 0.05), any::<bool>()).prop_map(Some)])
+        let section = (logu(-0.3, 2.0), prop_oneof![3 => unif(0.0, 0.12), 1 => unif(0.12, 0.45)], unif(0.005, 0.03), unif(0.005, 0.03), unif(0.03, 0.12), unif(0.2, 0.95), 75usize..600, prop_oneof![Just(1.0), unif(1.0, 2.0)], iso2(100.0), any::<bool>(), any::<u16>(), prop_oneof![4 => Just(None), 1 => (unif(0.02, 0.05), any::<bool>()).prop_map(Some)])
             .prop_map(|(chord, camber, r_le, r_te, t_max, p, n_side, density, pose, reverse, start, open)| Section { chord, camber, r_le, r_te, t_max, p, n_side, density, pose, reverse, start, open });
         (section, any::<bool>(), closed_method(), closed_method(), prop::option::of(any::<bool>()), any::<bool>(), iso2(50.0))
             .prop_map(|(section, orient_by_direction, le, te, upper_dir, gap, t)| {
